@@ -2393,8 +2393,15 @@ def BHJM_cylinder_segment(
     phio2 = phi - np.sign(phi) * 2 * np.pi
 
     # phi=phi1, phi=phi2
-    mask_phi1 = close(phio1, phi1) | close(phio2, phi1)
-    mask_phi2 = close(phio1, phi2) | close(phio2, phi2)
+    # all three representations phi, phi - 2pi, phi + 2pi of the azimuth are compared: at the
+    # branch cut of the wrap above (phi = +-0) a section angle of +-360 deg is only matched by
+    # the one that phio2 leaves out (sign(0) = 0 gives no wrap at all)
+    mask_phi1 = (
+        close(phi, phi1) | close(phi - 2 * np.pi, phi1) | close(phi + 2 * np.pi, phi1)
+    )
+    mask_phi2 = (
+        close(phi, phi2) | close(phi - 2 * np.pi, phi2) | close(phi + 2 * np.pi, phi2)
+    )
 
     # r, phi ,z lies in-between, avoid numerical fluctuations (e.g. due to rotations) by including 1e-14
     mask_r_in = (r1 - 1e-14 < r) & (r < r2 + 1e-14)
